@@ -209,7 +209,7 @@ func (this *RaftTransport) learnAddresses() bool {
 	this.learnAddressesAt = time.Now()
 
 	learned := false
-	for nodeId, _ := range this.clusterConn.Nodes() {
+	for _, nodeId := range this.clusterConn.KnownNodeIds() {
 		if nodeId == this.nodeId {
 			continue
 		}
